@@ -213,6 +213,38 @@ def twin_run(kind_name, ops, seed, scratch):
             return ("extra_persist", f"extra_data lost across {chan}: {len(got)} vs {len(want)} entries")
         if kind_name != "avg1d" and L.data_of(r) != L.data_of(ds):  # avg1d restores means up to rounding (C13)
             return ("data_persist", f"data differs across {chan}")
+    # a new wrapper made by new() starts empty and stays independent of the original
+    try:
+        fresh = ds.new()
+    except Exception as e:  # noqa: BLE001
+        return ("persist_exception", f"new(): {e!r}")
+    if len(fresh.extra_data) or fresh.extra_data is ds.extra_data:
+        return ("new_not_empty", f"DataSaver.new() holds {len(fresh.extra_data)} full results of the original "
+                                 f"({'the very same container' if fresh.extra_data is ds.extra_data else 'a copy'})")
+    # saving twice to the same file: between the two saves a known point is measured again (learners that take the latest
+    # value) - the second save must write what the wrapper holds now
+    if kind_name in ("seq", "l2d", "integ") and told:
+        try:
+            f2 = os.path.join(scratch, "ds_twice.pickle")
+            ds.save(f2)
+            p = next(iter(ds.extra_data))
+            y2 = kind.fn(p)
+            y2 = (y2 + 2) if isinstance(y2, (int, float)) else y2
+            r2 = {"y": y2, "aux": ("measured again before the second save", L.canon(p))}
+            ds.tell(p, r2)
+            plain.tell(p, pick(r2))
+            ds.save(f2)
+            back = ds.new()
+            back.load(f2)
+        except Exception as e:  # noqa: BLE001
+            return ("persist_exception", f"second save: {e!r}")
+        got = {L.canon(k): L.canon(v) for k, v in back.extra_data.items()}
+        now = {L.canon(k): L.canon(v) for k, v in ds.extra_data.items()}
+        if got != now:
+            return ("extra_persist", "a second save to the same file (after a known point was measured again) did not store what the "
+                                     "wrapper holds now")
+        if L.data_of(back) != L.data_of(ds):
+            return ("data_persist", "data differs after a second save to the same file")
     # rolling back to a checkpoint: the saved state is loaded into a wrapper that has gone on in the meantime.  For the learners
     # whose load REPLACES their data the full results must be replaced too (exactly the points the learner holds)
     if kind_name in ("lnd2", "avg", "integ", "l2d") and told:
